@@ -3,6 +3,8 @@ package main
 import (
 	"encoding/json"
 	"fmt"
+	"os"
+	"strconv"
 	"strings"
 	"time"
 
@@ -229,7 +231,10 @@ func init() {
 		Run: func(c *hx.Ctx) {
 			bound := 2
 			if c.Thorough() {
-				bound = -1
+				bound = 3
+			}
+			if b := os.Getenv("HX_BOUND"); b != "" {
+				bound, _ = strconv.Atoi(b)
 			}
 			for i, cfg := range dagConfigs(c.Thorough()) {
 				if !c.Mine(i) {
